@@ -282,6 +282,40 @@ def differential(cases, seeds=(1,), keep_samples=6):
     return res
 
 
+BRANCH_OPS = {
+    "m3.to_quat": ("br.m3.to_quat", 9, ["trace>=0", "xx", "yy", "zz"]),
+    "b3.to_quat": ("br.q.to_quat", 4, ["trace>=0", "xx", "yy", "zz"]),
+    "q.to_euler": ("br.q.to_euler", 4, ["gimbal+", "gimbal-", "main"]),
+    "q.between_vectors": ("br.q.between_vectors", 6, ["same", "opposite", "general"]),
+    "b3.between_vectors": ("br.q.between_vectors", 6, ["same", "opposite", "general"]),
+    "q.from_arc": ("br.q.from_arc", 6, ["same", "opposite", "general"]),
+    "q.from_arc_fb": ("br.q.from_arc", 6, ["same", "opposite", "general"]),
+    "q.slerp": ("br.q.slerp", 9, ["near(nlerp)", "far(acos/sin)"]),
+}
+
+
+def branch_histogram(cases, seed=1):
+    """model-only side channel: which branch of a branching function each case takes"""
+    sel = [c for c in cases if c.op in BRANCH_OPS]
+    if not sel:
+        return {}
+    lines = []
+    for c in sel:
+        bop, n, _ = BRANCH_OPS[c.op]
+        lines.append(" ".join([bop] + [tok(a) for a in c.args[:n]]))
+    out = run_ops(BIN_MODEL, [], f"seed {seed}\n" + "\n".join(lines) + "\n")
+    hist = {}
+    for c, o in zip(sel, out):
+        names = BRANCH_OPS[c.op][2]
+        toks = o.split(" ")
+        if toks[0] != "ok":
+            raise MachineryError(f"branch query failed: {o}")
+        k = int(toks[1].split("/")[0])
+        key = f"{c.op}:{names[k]}"
+        hist[key] = hist.get(key, 0) + 1
+    return hist
+
+
 def minimise(case, seed):
     """greedy simplification of a disagreeing case while impl and model still differ"""
     def differs(c):
